@@ -59,7 +59,13 @@ def pipeline_candidates(scn):
             for k in ("alt_on", "twin_on"):
                 if k in c:
                     c[k] = [f for f in c[k] if f in fes]
+            if c.get("add_after_run"):
+                c["add_after_run"]["on"] = [f for f in c["add_after_run"]["on"] if f in fes]
             yield c
+    if s.get("add_after_run"):
+        c = copy.deepcopy(s)
+        del c["add_after_run"]
+        yield c
     for k in ("twin_on", "alt_on"):
         if s.get(k):
             c = copy.deepcopy(s)
